@@ -52,7 +52,7 @@ def run(ctx):
                 "iterated with limits 1,2,29,30,31,100,n-1,n,n+1,100000 and random; decisive: item kinds and order (flags once, "
                 "per chunk metadata then batches, footer once, then nothing), every batch non-empty and <= limit, per-chunk "
                 "concatenation = the chunk's numbers = whole-file decompression. non-trivial = limit < n (the limit cuts the chunk)")
-    files = D.make_files(ctx, 40 if ctx.quick else 300)
+    files = D.make_files(ctx, 120 if ctx.quick else 600)
     lines, info = [], []
     for f in files:
         nmax = max([len(c) for c in f["chunks"]]) if f.get("chunks") else len(f.get("flat", []))
